@@ -4,6 +4,7 @@ FuturesPerClient = 1
 MaxThreads = 2
 Cap = 2
 AllowRetire = TRUE
+FixRetire = TRUE
 INVARIANTS AtMostOnce JoinAfterDone QueueOK
 PROPERTY Live
 CONSTANT defaultInitValue = defaultInitValue
